@@ -45,6 +45,91 @@ fn snapshot_list(list: &MorphemeList<&sudachi::dic::dictionary::JapaneseDictiona
     Ok(v)
 }
 
+/// Failures late in an analysis: the image of the system dictionary has lost its last bytes (a truncated copy), so
+/// the record of its last word cannot be read and an analysis whose best path holds that word fails after the
+/// lattice was built and the path was found. Such a failure, too, must leave the tokenizer usable and history-free.
+fn truncated_image_histories(rep: &mut Report, wi: u64, world: &World, rng: &mut Rng) {
+    let cfg = crate::env::config(&world.cfg_json, &world.res);
+    for cut in [2usize, 1, 3, 5] {
+        if world.sys_bytes.len() <= cut {
+            continue;
+        }
+        let bytes = &world.sys_bytes[..world.sys_bytes.len() - cut];
+        let dict = match guard(|| crate::env::load(&cfg, bytes, &world.user_bytes, Place::Owned)) {
+            Ok(Ok(d)) => d,
+            _ => {
+                rep.count("truncated_images_not_loadable", 1);
+                continue;
+            }
+        };
+        let keys = world.keys();
+        // texts a fresh tokenizer rejects with an error value (not a panic) although they are short
+        let mut failing: Vec<String> = vec![];
+        for e in world.sys.entries.iter().rev().take(4) {
+            if !e.indexed() || e.key.is_empty() {
+                continue;
+            }
+            for text in [e.key.clone(), format!("{}{}", rng.pick(&keys), e.key)] {
+                let mut f = Tok::new(&dict, Mode::C);
+                if let Ok(Err(_)) = guard(|| f.run(&text)) {
+                    failing.push(text);
+                }
+            }
+        }
+        if failing.is_empty() {
+            rep.count("truncated_images_without_failing_text", 1);
+            continue;
+        }
+        rep.count("truncated_images_used", 1);
+        let mode = MODES[rng.below(3)];
+        let mut live = Tok::new(&dict, mode);
+        let mut history: Vec<Value> = vec![];
+        for _ in 0..12 {
+            let fail_now = rng.chance(1, 2);
+            let text = if fail_now { rng.pick(&failing).clone() } else { textgen::text_from_keys(rng, &keys, 6) };
+            history.push(json!({"op": if fail_now { "analyse a text whose path cannot be resolved" } else { "analyse" }, "text": clip(&text, 80)}));
+            match guard(|| live.run(&text)) {
+                Ok(Ok(())) => {}
+                Ok(Err(_)) => rep.count("analyses_failed_after_the_path_was_found", fail_now as u64),
+                Err(p) => {
+                    rep.skipped_panic(&p, json!({"history": history}));
+                    return;
+                }
+            }
+            let plen = 1 + rng.below(6);
+            let probe = textgen::text_from_keys(rng, &keys, plen);
+            rep.eval();
+            let mut fresh = Tok::new(&dict, mode);
+            let scen = || json!({"world_index": wi, "system_image_truncated_by": cut, "history": history, "probe": probe, "mode": mode_name(mode), "world": world.describe(true)});
+            let rl = guard(|| live.run(&probe).map_err(|e| format!("{:?}", e)).and_then(|_| snapshot(&live, 0x3ff)));
+            let rf = guard(|| fresh.run(&probe).map_err(|e| format!("{:?}", e)).and_then(|_| snapshot(&fresh, 0x3ff)));
+            match (rl, rf) {
+                (Ok(Ok(a)), Ok(Ok(b))) => {
+                    rep.count("probes_compared_after_late_failures", 1);
+                    if a != b {
+                        let k = a.iter().zip(b.iter()).position(|(x, y)| x != y).unwrap_or(a.len().min(b.len()));
+                        rep.violation("history_dependence", "probe", &format!("after an analysis that failed while its path was resolved, morpheme {} differs: long-lived {:?} vs fresh {:?} ({} vs {} morphemes)", k, a.get(k), b.get(k), a.len(), b.len()), "", scen());
+                        return;
+                    }
+                }
+                (Ok(Err(_)), Ok(Err(_))) => {}
+                (Err(p), Ok(_)) => {
+                    rep.violation("history_panic", &p.site, &format!("after an analysis that failed while its path was resolved, the probe panics on the long-lived tokenizer but not on a fresh one: {}", p.msg), "", scen());
+                    return;
+                }
+                (_, Err(p)) => {
+                    rep.skipped_panic(&p, json!({"probe": probe}));
+                }
+                (Ok(a), Ok(b)) => {
+                    rep.violation("outcome_differs", "do_tokenize", &format!("after an analysis that failed while its path was resolved: long-lived tokenizer {:?}, fresh tokenizer {:?}", a.err(), b.err()), "", scen());
+                    return;
+                }
+            }
+        }
+        return;
+    }
+}
+
 pub fn run(ctx: &Ctx, rep: &mut Report) {
     let n_worlds = ctx.n(240, 12000);
     for wi in ctx.indices(n_worlds) {
@@ -79,6 +164,9 @@ pub fn run(ctx: &Ctx, rep: &mut Report) {
         rep.count("worlds", 1);
         let has_pr = world.plugins.join_numeric.is_some() || world.plugins.join_katakana.is_some();
         let keys = world.keys();
+        if wi % 2 == 1 {
+            truncated_image_histories(rep, wi, &world, &mut rng);
+        }
         for hi in 0..6 {
             // one history on a long-lived tokenizer / list pair
             let mut mode = MODES[rng.below(3)];
